@@ -872,3 +872,100 @@ theorem grid_inside' (fmin fmax spacing baud : Int) (hs : 0 < spacing) (c : Ch)
 
 
 end Gnpy.Bands
+
+namespace Gnpy.Bands
+
+/-! ### how multiband elements are built -/
+
+theorem mbStep_spec (s s' : MbState) (b : Band) (h : mbStep s b = .ok s') :
+    s'.amps = s.amps ++ [(bandName b, b)] ∧ (∀ x, x ∈ s'.bands ↔ x ∈ s.bands ∨ x = b) ∧
+    (s.bands.Nodup → s'.bands.Nodup) := by
+  simp only [mbStep] at h
+  split at h
+  · exact absurd h (by simp)
+  · split at h
+    · rename_i hc
+      simp only [Except.ok.injEq] at h; subst h
+      have hb : b ∈ s.bands := by simpa using hc
+      refine ⟨rfl, fun x => ⟨fun hx => Or.inl hx, fun hx => ?_⟩, fun hn => hn⟩
+      rcases hx with hx | rfl
+      · exact hx
+      · exact hb
+    · rename_i hc
+      simp only [Except.ok.injEq] at h; subst h
+      have hb : b ∉ s.bands := by simpa using hc
+      refine ⟨rfl, fun x => by simp, fun hn => ?_⟩
+      exact List.nodup_append.2 ⟨hn, by simp, by
+        intro a ha c hc'
+        simp only [List.mem_singleton] at hc'
+        subst hc'
+        intro heq; subst heq; exact hb ha⟩
+
+theorem mbFold_spec (s s' : MbState) (l : List Band) (h : mbFold s l = .ok s') :
+    s'.amps = s.amps ++ l.map (fun b => (bandName b, b)) ∧ (∀ x, x ∈ s'.bands ↔ x ∈ s.bands ∨ x ∈ l) ∧
+    (s.bands.Nodup → s'.bands.Nodup) := by
+  induction l generalizing s with
+  | nil =>
+    simp only [mbFold, Except.ok.injEq] at h; subst h
+    simp
+  | cons b r ih =>
+    simp only [mbFold] at h
+    cases hs : mbStep s b with
+    | error e => rw [hs] at h; exact absurd h (by simp)
+    | ok s1 =>
+      rw [hs] at h
+      obtain ⟨a1, m1, n1⟩ := mbStep_spec s s1 b hs
+      obtain ⟨a2, m2, n2⟩ := ih s1 h
+      refine ⟨by rw [a2, a1]; simp, fun x => ?_, fun hn => n2 (n1 hn)⟩
+      rw [m2, m1]; simp only [List.mem_cons]; tauto
+
+/-- two different members of a pairwise disjoint family are disjoint -/
+theorem pairwise_of_nodup_subset {pb amps : List Band} (hn : pb.Nodup) (hsub : ∀ b ∈ pb, b ∈ amps)
+    (hd : amps.Pairwise BandDisj) : pb.Pairwise BandDisj := by
+  have : pb.Pairwise (fun a b => a ≠ b ∧ (a ∈ amps ∧ b ∈ amps)) :=
+    (List.nodup_iff_pairwise_ne.1 hn).and (List.pairwise_of_forall_mem_list (fun a ha b hb => ⟨hsub a ha, hsub b hb⟩))
+  exact this.imp (fun h => hd.forall h.2.1 h.2.2 h.1)
+
+theorem inAny_congr_mem {l₁ l₂ : List Band} (h : ∀ b, b ∈ l₁ ↔ b ∈ l₂) (c : Ch) : inAny l₁ c = inAny l₂ c := by
+  have e : inAny l₁ c = true ↔ inAny l₂ c = true := by
+    rw [inAny_iff, inAny_iff]
+    exact ⟨fun ⟨b, hb, hc⟩ => ⟨b, (h b).1 hb, hc⟩, fun ⟨b, hb, hc⟩ => ⟨b, (h b).2 hb, hc⟩⟩
+  cases h1 : inAny l₁ c <;> cases h2 : inAny l₂ c <;> simp_all
+
+/-- the general statement about `Multiband_amplifier.__init__`: starting from duplicate-free `params.bands` all of which
+belong to amplifiers of the list, with pairwise disjoint amplifier bands, the element is well-formed -/
+theorem mbFold_wf (pb0 amps : List Band) (s : MbState) (h : mbFold { bands := pb0, amps := [] } amps = .ok s)
+    (hn : pb0.Nodup) (hsub : ∀ b ∈ pb0, b ∈ amps) (hd : amps.Pairwise BandDisj) :
+    (Elem.multiband s.bands (s.amps.map (fun kv => kv.2))).WF ∧ s.amps.map (fun kv => kv.2) = amps := by
+  obtain ⟨ha, hm, hnd⟩ := mbFold_spec _ s amps h
+  have hcb : s.amps.map (fun kv => kv.2) = amps := by
+    rw [ha]; simp [List.map_map, Function.comp_def]
+  have hmem : ∀ b, b ∈ s.bands ↔ b ∈ amps := by
+    intro b; rw [hm]; exact ⟨fun hb => hb.elim (hsub b) id, Or.inr⟩
+  refine ⟨?_, hcb⟩
+  rw [hcb]
+  exact ⟨pairwise_of_nodup_subset (hnd hn) (fun b hb => (hmem b).1 hb) hd, hd, fun c => inAny_congr_mem hmem c⟩
+
+theorem dedupBands_mem (l : List Band) (b : Band) : b ∈ dedupBands l ↔ b ∈ l := by
+  induction l with
+  | nil => simp [dedupBands]
+  | cons x r ih =>
+    simp only [dedupBands, List.mem_cons, List.mem_filter, ih]
+    constructor
+    · rintro (h | ⟨h, _⟩)
+      · exact Or.inl h
+      · exact Or.inr h
+    · rintro (h | h)
+      · exact Or.inl h
+      · by_cases hx : b = x
+        · exact Or.inl hx
+        · exact Or.inr ⟨h, by simpa using hx⟩
+
+theorem dedupBands_nodup (l : List Band) : (dedupBands l).Nodup := by
+  induction l with
+  | nil => simp [dedupBands]
+  | cons x r ih =>
+    simp only [dedupBands]
+    refine List.nodup_cons.2 ⟨by simp [List.mem_filter], ih.filter _⟩
+
+end Gnpy.Bands
